@@ -317,7 +317,7 @@ def run(ctx):
         ctx.violation(f"epMask / castleSqMask table differs from the model: impl `{o1[mis][:200]}` model `{o2[mis][:200]}`",
                       {"kind": "correspondence", "tie": "ep-and-castle-masks", "theorem": "Props.C02.makeMove_refines (castleKeep, epMaskW/B) / matWeights_eq", "input": ["pos masks", "pos matw"]}, no_input=True)
     # histories
-    n = 2000 if quick else 110000
+    n = 2000 if quick else 40000
     stats = {k: 0 for k in ("ops", "start", "make", "takeback", "null", "copy", "captures", "ep_captures", "promotions", "castlings", "ep_set",
                             "hmc_ge_100", "ser_out_of_range", "matid_negative_as_int", "max_queens_one_side", "histories_ge6_queens", "histories_9_queens")}
     batch = 2000 if quick else 10000
